@@ -267,7 +267,7 @@ func streamC08Gw(env *runEnv) {
 	}
 	n := 0
 	for _, size := range sizes {
-		for _, how := range []string{"single", "fragments2", "fragments4", "split-header", "split-payload"} {
+		for _, how := range []string{"single", "fragments2", "fragments4", "split-header", "split-payload", "messages2", "messages2-short-first"} {
 			n++
 			b := newTagBackend(nil)
 			host, port := splitHostPort(b.addr)
@@ -294,6 +294,7 @@ func streamC08Gw(env *runEnv) {
 				}
 			}
 			big := packet(ptData, dataBody(payload))
+			cut := 0
 			switch how {
 			case "single":
 				ws.send(big)
@@ -303,6 +304,15 @@ func streamC08Gw(env *runEnv) {
 			case "fragments4":
 				q := len(big) / 4
 				ws.sendFragments([][]byte{big[:q], big[q : 2*q], big[2*q : 3*q], big[3*q:]})
+			case "messages2", "messages2-short-first":
+				// two websocket messages (not fragments of one): the packet loop sees two reads
+				cut = 8 + r.Intn(min(len(big)-9, 4000))
+				if how == "messages2-short-first" {
+					cut = 1 + r.Intn(7)
+				}
+				ws.send(big[:cut])
+				time.Sleep(30 * time.Millisecond)
+				ws.send(big[cut:])
 			case "split-header":
 				ws.sendSplit(big, 1+r.Intn(5), 40*time.Millisecond)
 			default:
@@ -324,7 +334,11 @@ func streamC08Gw(env *runEnv) {
 			ws.close()
 			res := tunnelResult{responses: resp, closed: closed}
 			obs := tunnelObservation(srv, id, res, b, nil)
-			pk = append(pk, big, packet(ptData, dataBody(tail)), packet(ptCloseChannel, nil))
+			if cut > 0 {
+				pk = append(pk, big[:cut], big[cut:], packet(ptData, dataBody(tail)), packet(ptCloseChannel, nil))
+			} else {
+				pk = append(pk, big, packet(ptData, dataBody(tail)), packet(ptCloseChannel, nil))
+			}
 			var items []item
 			for _, p := range pk {
 				items = append(items, item{data: p, ans: all})
